@@ -241,6 +241,14 @@ pub async fn config_factory(sys_config: Arc<AppSysConfig>) -> anyhow::Result<Fac
             ));
         }
     }
+    #[cfg(feature = "verif_hooks")]
+    if let Some(ms) = std::env::var("RNACOS_VERIF_DELAY_INJECT_MS")
+        .ok()
+        .and_then(|v| v.parse::<u64>().ok())
+    {
+        // widen the existing window between the start of the raft core and the injection of the actors
+        tokio::time::sleep(std::time::Duration::from_millis(ms)).await;
+    }
     Ok(factory.init().await)
 }
 
